@@ -559,9 +559,66 @@ def find_stmt_anchor(body, anchor, nth):
         if m:
             hits.append((m.start(), m.end()))
     # de-duplicate overlapping starts (tokens() yields each token start once)
-    if len(hits) < nth:
+    if len(hits) >= nth:
+        return hits[nth - 1]
+    if hits:
+        return None      # fewer exact occurrences than asked for: the structure changed
+    return fuzzy_stmt_anchor(body, anchor, nth)
+
+
+def _stmt_spans(body):
+    """(start, end) of every `;`-terminated statement and every block-opening header at any depth."""
+    spans = []
+    starts = [1]
+    for kind, a, b in tokens(body):
+        if kind != 'punct':
+            continue
+        c = body[a]
+        if c == ';':
+            spans.append((starts[-1], b))
+            starts[-1] = b
+        elif c == '{':
+            if body[starts[-1]:a].strip():
+                spans.append((starts[-1], a))
+            starts.append(b)
+        elif c == '}':
+            if len(starts) > 1:
+                if body[starts[-1]:a].strip():
+                    spans.append((starts[-1], a))
+                starts.pop()
+            starts[-1] = b
+    return spans
+
+
+def fuzzy_stmt_anchor(body, anchor, nth):
+    """The anchored statement was edited: pick the statement that is clearly the most similar one (token-wise).
+    Used only when there is no exact occurrence; returns None unless there is a unique good candidate."""
+    import difflib
+    if nth != 1:
         return None
-    return hits[nth - 1]
+    atoks = re.findall(r'\w+|[^\w\s]', anchor)
+    if len(atoks) < 4:
+        return None
+    scored = []
+    for a, e in _stmt_spans(body):
+        # skip leading whitespace
+        t = body[a:e]
+        a2 = a + (len(t) - len(t.lstrip()))
+        toks = re.findall(r'\w+|[^\w\s]', body[a2:e])
+        if not toks:
+            continue
+        r = difflib.SequenceMatcher(None, atoks, toks[:len(atoks) + 6]).ratio()
+        scored.append((r, a2, e))
+    scored.sort(reverse=True)
+    if not scored or scored[0][0] < 0.72:
+        return None
+    if len(scored) > 1 and scored[0][0] - scored[1][0] < 0.08:
+        return None
+    FUZZY_LOG.append('anchor "%s" matched approximately (similarity %.2f)' % (anchor[:60], scored[0][0]))
+    return (scored[0][1], scored[0][2])
+
+
+FUZZY_LOG = []
 
 
 def stmt_bounds(body, a, e):
@@ -788,7 +845,10 @@ class FnAsm:
                         pos = {'before_loop': a_, 'after_loop': bc_ + 1, 'loop_body_start': bo_ + 1, 'loop_body_end': bc_}[anchor]
                     inserts.append((pos, 5, '\n' + tx.rstrip() + '\n', meta))
                     continue
+                nfz = len(FUZZY_LOG)
                 hit = find_stmt_anchor(body, anchor, nth)
+                if len(FUZZY_LOG) > nfz:
+                    self.log.append('ANCHOR: ' + FUZZY_LOG[-1])
                 if hit is None:
                     raise Undecided('%s: anchor "%s" (nth=%d) not found in the current source' % (self.qual, anchor, nth))
                 sa, se = stmt_bounds(body, hit[0], hit[1])
@@ -1108,9 +1168,12 @@ def assemble(unit, src):
         for seg in mp.split('::'):
             node = node.setdefault(seg, {})
 
+    cur_mod_path = ['']
+
     def emit_mod(node, path):
         for name, sub in node.items():
             p = (path + '::' + name) if path else name
+            cur_mod_path[0] = p
             out.emit('pub mod %s {\n' % name)
             out.emit('#[allow(unused_imports)] use vstd::prelude::*;\n#[allow(unused_imports)] use crate::vspec::*;\n')
             modnode = find_mod(items, p)
@@ -1141,7 +1204,8 @@ def assemble(unit, src):
         sha = hashlib.sha256(f.src[f.header_start:f.end].encode()).hexdigest()[:16]
         log.append({'fn': qual, 'src_sha': sha, 'rules': asm.log, 'contract': fs.line if fs else None,
                     'external_body': bool(fs and fs.external_body),
-                    'emitted': (fs.as_inherent if fs and fs.as_inherent else f.name)})
+                    'emitted': (fs.as_inherent if fs and fs.as_inherent else f.name),
+                    'mod': cur_mod_path[0]})
 
     def emit_const(c, opts, qual, in_trait=False):
         t = publicize_header(norm_header(c.src[c.header_start:c.end]))
